@@ -75,7 +75,7 @@ func (m *Machine) errVal(msg string) value {
 func (m *Machine) fsOp(kind, name string) {
 	m.fs.Ops++
 	m.fs.OpLog = append(m.fs.OpLog, kind+" "+name)
-	if m.ExploreCrash && m.crashes < m.MaxCrashes {
+	if m.ExploreCrash && m.crashes < m.MaxCrashes && (!m.ZoneOnly || m.records["zone"] == 1 || m.Phase > 0) {
 		m.CrashPoints++
 		if m.nextDecision(2, func(int) bool { return true }) == 1 {
 			m.crashes++
